@@ -23,6 +23,7 @@ LEVEL_TEXT = (
     "replayable value (a picked thread that blocks on a lock inside the library is set aside, so a library that adds "
     "locking is not an alarm).  All names must be pairwise distinct - within the history and against every name handed "
     "out earlier in the process - and start with the requested prefix (prefixes include long, empty and underscore-ended ones)."
+    "  Engines may be user-defined subclasses with their own __init__ (nothing the generated dataclass __init__ would run has run) or their own __post_init__."
 )
 LEVEL_NOTE = (
     "trusts: the scheduler harness; uniqueness ultimately rests on uuid4 - a change that merely weakens the random suffix is "
